@@ -48,38 +48,6 @@ structure RunInv {D} (c : Cfg D) (proj : D → G) (I : D → Prop) (g0 : G) (nF 
   nf : s.funcs.length = nF
   ni : s.idefs.length = nI
 
-/-- `step` on a running state whose next instruction decodes -/
-theorem step_ins {D} (c : Cfg D) (s : St D) (hr : s.status = .running) {op ipc next : Nat} {operands : List Nat}
-    (hd : decode (c.code s.current) s.pc = .ins op operands ipc next) :
-    step c s =
-      match dispatch c { s with pc := next } op operands with
-      | none => { s with status := .stuck }
-      | some (.error e) => { s with status := .failed e }
-      | some (.ok s2) =>
-        if s2.count + 1 > MAX_RUN_INSTRUCTIONS then { s2 with count := s2.count + 1, pc := ipc, status := .failed .budget }
-        else { s2 with count := s2.count + 1 } := by
-  obtain ⟨ini, cur, pc, calls, funcs, idefs, bj, lc, cnt, vs, data, status⟩ := s
-  simp only [] at hr hd ⊢
-  subst hr
-  unfold step
-  simp only [hd]
-  rfl
-
-theorem stepCost_ins {D} (c : Cfg D) (proj : D → G) (s : St D) (hr : s.status = .running) {op ipc next : Nat}
-    {operands : List Nat} (hd : decode (c.code s.current) s.pc = .ins op operands ipc next) :
-    stepCost c proj s = 1 + ctlCost c { s with pc := next } op + ((proj (step c s).data).iters - (proj s.data).iters) := by
-  obtain ⟨ini, cur, pc, calls, funcs, idefs, bj, lc, cnt, vs, data, status⟩ := s
-  simp only [] at hr hd ⊢
-  subst hr
-  unfold stepCost
-  simp only [hd]
-
-theorem stepCost_noins {D} (c : Cfg D) (proj : D → G) (s : St D) (hr : s.status = .running)
-    (hd : decode (c.code s.current) s.pc = .eof ∨ decode (c.code s.current) s.pc = .bad) : stepCost c proj s = 1 := by
-  unfold stepCost
-  simp only [hr]
-  rcases hd with hd | hd <;> rw [hd]
-
 /-- one iteration of the run loop keeps the invariant and costs at most `perStep` -/
 theorem step_inv {D} (c : Cfg D) (proj : D → G) {I : D → Prop} (hsem : SemOk c.sem proj I) (g0 : G) (nF nI : Nat) (s : St D)
     (h : RunInv c proj I g0 nF nI s) :
@@ -255,135 +223,6 @@ theorem run_sizes_invariant {D} (c : Cfg D) (proj : D → G) {I : D → Prop} (h
   exact ⟨h.pts, h.twi, h.contours, h.cap, h.stack, h.nf, h.ni, h.wf.1, h.inv⟩
 
 /-! ### the loop-opcode semantics honours the contract -/
-
-theorem push_len {cap : Nat} {vs vs' : List Int} {v : Int} (h : push cap vs v = .ok vs') : vs'.length ≤ cap := by
-  unfold push at h
-  split at h
-  · simp at h; subst h; simp; omega
-  · simp at h
-
-theorem applyBinary_len {ped : Bool} {cap : Nat} {vs vs' : List Int} {f : Int → Int → Int}
-    (h : applyBinary ped cap vs f = .ok vs') : vs'.length ≤ cap := by
-  unfold applyBinary at h
-  split at h
-  · simp at h
-  · split at h
-    · simp at h
-    · exact push_len h
-
-theorem applyUnary_len {ped : Bool} {cap : Nat} {vs vs' : List Int} {f : Int → Int}
-    (h : applyUnary ped cap vs f = .ok vs') : vs'.length ≤ cap := by
-  unfold applyUnary at h
-  split at h
-  · simp at h
-  · exact push_len h
-
-/-- every opcode of `semSubset` leaves the stack within the capacity it was given -/
-theorem semSubset_len (ped : Bool) (op : Nat) (bytes : List Nat) (vs vs' : List Int) (cap cap' : Nat)
-    (hl : vs.length ≤ cap) (h : semSubset ped op bytes (vs, cap) = .ok (vs', cap')) : vs'.length ≤ cap ∧ cap' = cap := by
-  unfold semSubset at h
-  simp only [] at h
-  have hret : ∀ (r : Except Err (List Int)),
-      (match r with | .ok vs => (Except.ok (vs, cap) : Except Err (List Int × Nat)) | .error e => .error e) = .ok (vs', cap') →
-      r = .ok vs' ∧ cap' = cap := by
-    intro r hr
-    cases r with
-    | error e => cases hr
-    | ok v => have h0 := Prod.mk.inj (Except.ok.inj hr); exact ⟨by rw [h0.1], h0.2.symm⟩
-  by_cases c0 : op = 0x40 ∨ op = 0x41 ∨ (0xB0 ≤ op ∧ op ≤ 0xBF)
-  · rw [if_pos c0] at h
-    split at h
-    · have h0 := Prod.mk.inj (Except.ok.inj h)
-      obtain ⟨h1, h2⟩ := h0; subst h1; simp only [List.length_append, List.length_reverse]; omega
-    · cases h
-  rw [if_neg c0] at h
-  by_cases c1 : op = 0x20
-  · rw [if_pos c1] at h
-    split at h
-    · have ⟨h1, h2⟩ := hret _ h; exact ⟨push_len h1, h2⟩
-    · split at h
-      · cases h
-      · have ⟨h1, h2⟩ := hret _ h; exact ⟨push_len h1, h2⟩
-  rw [if_neg c1] at h
-  by_cases c2 : op = 0x21
-  · rw [if_pos c2] at h
-    have ⟨h1, h2⟩ := hret _ h
-    cases hp : pop ped vs with
-    | error e => rw [hp] at h1; cases h1
-    | ok r =>
-      rw [hp] at h1
-      have h3 : r.2 = vs' := Except.ok.inj h1
-      subst h3
-      exact ⟨Nat.le_trans (pop_len (v := r.1) (vs' := r.2) hp) hl, h2⟩
-  rw [if_neg c2] at h
-  by_cases c3 : op = 0x22
-  · rw [if_pos c3] at h
-    have h0 := Prod.mk.inj (Except.ok.inj h); obtain ⟨h1, h2⟩ := h0; subst h1; exact ⟨by simp, h2.symm⟩
-  rw [if_neg c3] at h
-  by_cases c4 : op = 0x23
-  · rw [if_pos c4] at h
-    split at h
-    · cases h
-    · split at h
-      · cases h
-      · split at h
-        · cases h
-        · have ⟨h1, h2⟩ := hret _ h; exact ⟨push_len h1, h2⟩
-  rw [if_neg c4] at h
-  by_cases c5 : op = 0x24
-  · rw [if_pos c5] at h
-    have ⟨h1, h2⟩ := hret _ h; exact ⟨push_len h1, h2⟩
-  rw [if_neg c5] at h
-  by_cases c6 : op = 0x60
-  · rw [if_pos c6] at h
-    have ⟨h1, h2⟩ := hret _ h; exact ⟨applyBinary_len h1, h2⟩
-  rw [if_neg c6] at h
-  by_cases c7 : op = 0x61
-  · rw [if_pos c7] at h
-    have ⟨h1, h2⟩ := hret _ h; exact ⟨applyBinary_len h1, h2⟩
-  rw [if_neg c7] at h
-  by_cases c8 : op = 0x65
-  · rw [if_pos c8] at h
-    have ⟨h1, h2⟩ := hret _ h; exact ⟨applyUnary_len h1, h2⟩
-  rw [if_neg c8] at h
-  by_cases c9 : op = 0x50
-  · rw [if_pos c9] at h
-    have ⟨h1, h2⟩ := hret _ h; exact ⟨applyBinary_len h1, h2⟩
-  rw [if_neg c9] at h
-  by_cases c10 : op = 0x53
-  · rw [if_pos c10] at h
-    have ⟨h1, h2⟩ := hret _ h; exact ⟨applyBinary_len h1, h2⟩
-  rw [if_neg c10] at h
-  by_cases c11 : op = 0x54
-  · rw [if_pos c11] at h
-    have ⟨h1, h2⟩ := hret _ h; exact ⟨applyBinary_len h1, h2⟩
-  rw [if_neg c11] at h
-  by_cases c12 : op = 0x5A
-  · rw [if_pos c12] at h
-    have ⟨h1, h2⟩ := hret _ h; exact ⟨applyBinary_len h1, h2⟩
-  rw [if_neg c12] at h
-  by_cases c13 : op = 0x5B
-  · rw [if_pos c13] at h
-    have ⟨h1, h2⟩ := hret _ h; exact ⟨applyBinary_len h1, h2⟩
-  rw [if_neg c13] at h
-  by_cases c14 : op = 0x5C
-  · rw [if_pos c14] at h
-    have ⟨h1, h2⟩ := hret _ h; exact ⟨applyUnary_len h1, h2⟩
-  rw [if_neg c14] at h
-  by_cases c15 : op = 0x4F
-  · rw [if_pos c15] at h
-    have ⟨h1, h2⟩ := hret _ h
-    cases hp : pop ped vs with
-    | error e => rw [hp] at h1; cases h1
-    | ok r =>
-      rw [hp] at h1
-      have h3 : r.2 = vs' := Except.ok.inj h1
-      subst h3
-      exact ⟨Nat.le_trans (pop_len (v := r.1) (vs' := r.2) hp) hl, h2⟩
-  rw [if_neg c15] at h
-  split at h
-  · have h0 := Prod.mk.inj (Except.ok.inj h); obtain ⟨h1, h2⟩ := h0; subst h1; exact ⟨hl, h2.symm⟩
-  · cases h
 
 /-- the loop-opcode semantics `semLoops` (Model/InterpLoops.lean) honours the per-dispatch contract -/
 theorem semLoops_ok (ped : Bool) : SemOk (semLoops ped) id := by
